@@ -94,6 +94,17 @@ def build_harness(config="std"):
     if config == "nohook":
         # the production configuration: guard OFF, the polling scanner uses std::time::Instant
         env["RUSTFLAGS"] = "--check-cfg cfg(helgoboss_midi_verif)"
+    cov = os.environ.get("VERIF_COVERAGE")
+    if cov:
+        # audit mode (tools/coverage.sh, not a registered check): source-based coverage of /repo/src
+        # reached by the conformance runs; needs llvm-tools, which only the nightly toolchain has
+        tdir = os.path.join(hdir, "target", "cov-" + config)
+        cmd = ["cargo", "+nightly", "build", "--offline", "--quiet", "--target-dir", tdir] + feats
+        env["RUSTFLAGS"] = ("--check-cfg cfg(helgoboss_midi_verif) -C instrument-coverage"
+                            + ("" if config == "nohook" else " --cfg helgoboss_midi_verif"))
+        os.makedirs(cov, exist_ok=True)
+        os.environ["LLVM_PROFILE_FILE"] = os.path.join(cov, config + "-%p-%8m.profraw")
+        open(os.path.join(cov, "binaries.txt"), "a").write(os.path.join(tdir, "debug", "hm-harness") + "\n")
     rc, out, dt = sh(cmd, cwd=hdir, env=env, timeout=900, check=False)
     if rc != 0:
         raise ToolError("harness build failed (%s):\n%s" % (config, out[-4000:]))
